@@ -25,7 +25,7 @@ FLOORS = {
               'path:list': 20, 'path:tuple': 20, 'path:generator': 20, 'path:sheetless': 60,
               'path:repeat': 60, 'path:first_access_range': 40, 'element_compares': 15000,
               'cfg:xlsx-with-stale-stored-results': 8, 'real_book_cases': 20, 'real_value_compares': 800,
-              'pristine_process_workbooks': 16},
+              'pristine_process_workbooks': 16, 'workbooks_with_iterative_calculation_on': 20},
     'thorough': {'orders': 60000, 'exhaustive_order_workbooks': 400, 'path:unbounded': 4000,
                  'element_compares': 400000},
 }
@@ -520,6 +520,10 @@ def run(ctx):
         else:
             spec, meta = wbgen.dag(rng, n_cells=rng.randint(5, 9), arrays=(i % 8 == 0) or None,
                                    two_sheets=(i % 8 == 0) or None)
+        if i % 6 == 1:
+            # the same acyclic workbook saved with iterative calculation switched on
+            spec = dict(spec, calc={'iterate': True, 'count': 100, 'delta': 0.001})
+            ctx.count('workbooks_with_iterative_calculation_on')
         one_book(ctx, spec, meta, rng, config='xlsx-stale' if i % 5 == 0 else 'mem')
         if i % 7 == 0:
             late.append((spec, meta))
